@@ -25,6 +25,7 @@ def add(prop, *vs):
 
 # ---------------------------------------------------------------- C02
 add("C02",
+    V("range-validator-half-open", "C02", [(CONF, "    is_valid = 0 <= setting_value <= 1\n", "    is_valid = 0 <= setting_value < 1\n")], "fire", "C02.R3", note="seeded change C02-6: the valid threshold 1.0 is rejected"),
     V("blank-string-returns-before-validation", "C02", [(INIT, "    parser = _default_parser\n", "    if isinstance(date_string, str) and not date_string.strip():\n        return None\n\n    parser = _default_parser\n")], "fire", "C02.R2",
       note="seeded change C02-4: an invalid settings dict is accepted when the date string is blank"),
     V("template-refers-to-dropped-group", "C02", [("dateparser/data/date_translation_data/da.py", '"(\\\\d+[.,]?\\\\d*)\\\\s*hr(s?)": "\\\\1 time\\\\2"', '"(\\\\d+[.,]?\\\\d*)\\\\s*hrs?": "\\\\1 time\\\\2"')], "fire", "C02.R5",
